@@ -66,6 +66,10 @@ pub struct LFragMovie {
     pub large_moof: bool,
     /// sample payloads are not materialised (sizes beyond any real file): only counts and offsets are meaningful
     pub offsets_only: bool,
+    /// uninterpreted boxes among the fragment boxes: bit 0 a `uuid` box in every traf before its run, bit 1 a `uuid`
+    /// box at the top level behind every fragment's media data, bit 2 a `uuid` box in every moof before its trafs,
+    /// bit 3 a `free` box at the end of every traf
+    pub fillers: u8,
 }
 
 #[derive(Clone, Debug, PartialEq, Eq)]
@@ -190,18 +194,32 @@ pub fn media_nodes(m: &LFragMovie) -> (Vec<Node>, Vec<(u32, Vec<FExpect>)>) {
                     t.payload()
                 }),
             );
+            let uuid_box = || Node::leaf(b"uuid", (0..20u8).map(|i| 0xa0 + i).collect());
+            let mut tk = vec![tfhd_node, tfdt(r.tfdt_version, r.base_time)];
+            if m.fillers & 1 != 0 {
+                tk.push(uuid_box());
+            }
             if r.no_trun {
                 assert!(r.samples.is_empty());
-                trafs.push(Node::kids(b"traf", vec![tfhd_node, tfdt(r.tfdt_version, r.base_time)]));
             } else {
-                trafs.push(Node::kids(b"traf", vec![tfhd_node, tfdt(r.tfdt_version, r.base_time), trun_node]));
+                tk.push(trun_node);
             }
+            if m.fillers & 8 != 0 {
+                tk.push(Node::leaf(b"free", vec![0x33; 5]));
+            }
+            trafs.push(Node::kids(b"traf", tk));
         }
         let mut kids = vec![mfhd(fi as u32 + 1)];
+        if m.fillers & 4 != 0 {
+            kids.push(Node::leaf(b"uuid", (0..17u8).map(|i| 0xc0 + i).collect()));
+        }
         kids.extend(trafs);
         nodes.push(Node::leaf(b"mdat", pre).labelled(&pre_label));
         nodes.push(Node::kids(b"moof", kids).labelled(&moof_label).with_large(m.large_moof));
         nodes.push(Node::leaf(b"mdat", post).labelled(&post_label));
+        if m.fillers & 2 != 0 {
+            nodes.push(Node::leaf(b"uuid", (0..24u8).map(|i| 0xe0 + i).collect()));
+        }
     }
     (nodes, exp)
 }
